@@ -258,11 +258,15 @@ func evBitFwdFree(t *Tracer, id BID, hz, vz int64, minH, maxH float64) {
 	if midHi >= 1<<29 {
 		return
 	}
+	e := absW.ev("BitFwdFree", map[string]any{"id": id.Arr(), "hz": hz, "vz": vz, "lenLo": lenLo, "lenHi": lenHi, "midLo": midLo, "midHi": midHi,
+		"minH": fmt.Sprintf("%x", math.Float64bits(minH)), "maxH": fmt.Sprintf("%x", math.Float64bits(maxH))})
+	e.Real = map[string]any{"id": rid.String(), "maxHeight": fmt.Sprint(maxH), "minHeight": fmt.Sprint(minH)}
+	inFlight = &e
 	o, res := guard(func() (any, error) {
 		return transform.ConvertExtendedSpatialIDsToQuadkeysAndVerticalIDs([]string{rid.String()}, hz, vz, maxH, minH)
 	})
-	e := absW.ev("BitFwdFree", map[string]any{"id": id.Arr(), "hz": hz, "vz": vz, "lenLo": lenLo, "lenHi": lenHi, "midLo": midLo, "midHi": midHi})
-	e.O, e.Real = o, map[string]any{"id": rid.String(), "maxHeight": fmt.Sprint(maxH), "minHeight": fmt.Sprint(minH)}
+	inFlight = nil
+	e.O = o
 	e.R = []any{}
 	if o == "panic" {
 		e.Bad = "panic"
@@ -752,6 +756,18 @@ func init() {
 	})
 	reg("TilesToSp", func(t *Tracer, w Win, a map[string]any) {
 		evTiles(t, decTiles(a["tiles"]), decInt(a["E"]), decInt(a["O"]), decInt(a["ovz"]), true)
+	})
+	reg("BitFwdFree", func(t *Tracer, w Win, a map[string]any) {
+		var mn, mx uint64
+		s1, _ := a["minH"].(string)
+		s2, _ := a["maxH"].(string)
+		if n1, _ := fmt.Sscanf(s1, "%x", &mn); n1 != 1 {
+			return
+		}
+		if n2, _ := fmt.Sscanf(s2, "%x", &mx); n2 != 1 {
+			return
+		}
+		evBitFwdFree(t, decBID(a["id"]), decInt(a["hz"]), decInt(a["vz"]), math.Float64frombits(mn), math.Float64frombits(mx))
 	})
 	reg("BitFwd", func(t *Tracer, w Win, a map[string]any) {
 		evBitFwd(t, decBID(a["id"]), decInt(a["hz"]), decInt(a["vz"]), decInt(a["S"]), decInt(a["mn"]), decInt(a["mx"]), decBool(a["sp"]))
